@@ -40,6 +40,12 @@ var c08Recs = []mockq.Rec{
 	{Line: `p`, Labels: []mockq.KV{{K: "a", V: "x\xff"}}},
 	{Line: `p`, Labels: []mockq.KV{{K: "a", V: "x\xff\xff"}}},
 	{Line: `p`, Labels: []mockq.KV{{K: "a", V: "x\ufffd"}}},
+	// trace and span ids: full width, 64-bit ids padded to 128 bits on either side, absent (all zero)
+	{Line: `p`, Labels: []mockq.KV{{K: "a", V: `x`}}, Trace: "0102030405060708090a0b0c0d0e0f10", Span: "0102030405060708"},
+	{Line: `p`, Labels: []mockq.KV{{K: "a", V: `x`}}, Trace: "000000000000000000000000000000ab", Span: "0000000000000001"},
+	{Line: `p`, Labels: []mockq.KV{{K: "a", V: `x`}}, Trace: "ab000000000000000000000000000000", Span: "0100000000000000"},
+	{Line: `p`, Labels: []mockq.KV{{K: "a", V: `x`}}, Trace: "00000000000000000000000000000000", Span: "0000000000000000"},
+	{Line: `p`, Labels: []mockq.KV{{K: "a", V: `x`}}, Trace: "000000000000000000000000000000ab"},
 	{Line: "q\xc3", Labels: []mockq.KV{{K: "a", V: `x`}}},
 	{Line: "q\xe4", Labels: []mockq.KV{{K: "a", V: `x`}}},
 }
@@ -66,6 +72,8 @@ func c08Queries() []*refmodel.LogQuery {
 		{Stages: []refmodel.Stage{&refmodel.JSONStage{}, &refmodel.Drop{Items: []refmodel.DKItem{{Label: "a"}, {Label: "msg"}}}}},
 		{Stages: []refmodel.Stage{&refmodel.LineFilter{Op: "!=", Value: "q"}, &refmodel.Keep{Items: []refmodel.DKItem{{Label: "b"}}}}},
 		{Stages: []refmodel.Stage{&refmodel.JSONStage{}, &refmodel.Keep{Items: []refmodel.DKItem{{Label: "a"}}}}},
+		// a label rewritten from its own old value: records that shared a label set still share one afterwards
+		{Stages: []refmodel.Stage{&refmodel.LabelFormat{Items: []refmodel.LFItem{{Dst: "a", T: refmodel.Template{{Label: "a"}, {Lit: "-p"}}}}}}},
 	}
 }
 
